@@ -1,12 +1,18 @@
 (* C17: the generator and the converter AS THEY WERE before the repairs
      fix: convert-drops-interface-implements, convert-drops-repeatable, convert-drops-specified-by,
           convert-drops-inputvalue-deprecation, deprecated-reason-null-panic, typeref-kind-name-collision,
-          root-operation-invented (generate_v1: only the merge differs, Model.merge_base_doc false)
+          root-operation-invented (generate_v1: only the merge differs, Model.merge_base_doc false),
+          default-block-string-reprint (print_string_v0; repaired in ast.Document.PrintValue)
    (frozen copy of the affected definitions of Model.v at that time; everything else is shared with
    Model.v).  Only the historical *_refuted theorems of Properties.v refer to this file. *)
 From Coq Require Import String.
 From Gv Require Import lib.Bytes lib.Json lib.Gql C17.Util C17.ValueSyntax C17.Base C17.Model.
 Open Scope N_scope.
+
+(* ast.Document.PrintValue before fix rt-block-string-edge (default-block-string-reprint): the content of a block
+   string went between the delimiters as it is, a trailing quote merged with the closing delimiter *)
+Definition print_string_v0 (raw : bytes) (block : bool) : bytes :=
+  if block then 34 :: 34 :: 34 :: raw ++ [34; 34; 34] else 34 :: raw ++ [34].
 
 Fixpoint typeref_v0 (idx : list (name * idx_entry)) (t : ty) : itref :=
   match t with
